@@ -112,6 +112,11 @@ View == <<ks, st, pan>>     \* hist/out are output-only
 \* edge cover: with the last step in the view every reachable (state, event) pair is a distinct state
 LastStep == [op |-> hist[Len(hist)].op, args |-> hist[Len(hist)].args, crashAt |-> hist[Len(hist)].crashAt]
 EdgeView == <<ks, st, pan, LastStep>>
+\* two-edge cover: the last TWO steps are part of the view, so every reachable (state, event, event) triple is a distinct
+\* state: an event the model rejects without a trace (a header it refuses) is followed by every other event at least once,
+\* which is what shows a change that wrongly ACCEPTED it
+StepAt(i) == IF i < 1 THEN NULL ELSE [op |-> hist[i].op, args |-> hist[i].args, crashAt |-> hist[i].crashAt]
+Edge2View == <<ks, st, pan, StepAt(Len(hist) - 1), StepAt(Len(hist))>>
 
 -----------------------------------------------------------------------------
 (* ---- property predicates (design level; the same predicates are evaluated *)
